@@ -6,5 +6,4 @@ Local Open Scope string_scope.
 Definition avoid_src : list string := ["BranchStmt.Label"; "Field.Names"; "File.Name"; "FuncDecl.Name"; "ImportSpec.Name"; "LabeledStmt.Label"; "SelectorExpr.Sel"; "TypeSpec.Name"; "ValueSpec.Names"].
 
 Definition resolver_sources_pinned : list (string * bool) := [
-  ("decorator.stripVendor", true);
-  ("goast.imports", true)].
+  ("decorator.stripVendor", true)].
